@@ -224,7 +224,7 @@ func (C09Mon) After(w *core.World, st *core.Step) {
 }
 
 func runC09(c *core.Ctx) {
-	n := c.Pick(120, 3000)
+	n := c.Pick(500, 4000)
 	c.RunHistories(n, Registry["C09"].Mons, func(w *core.World) {
 		wts := map[string]int{
 			"edit-new": 8, "edit-mod": 14, "edit-rm": 10, "edit-rmdir": 6,
